@@ -5228,6 +5228,21 @@ func (a *Agent) TaskDispatch(RequestID uint32, CommandID uint32, Parser *parser.
 									if teamserver.AgentExist(AgentHdr.AgentID) {
 
 										DemonInfo = teamserver.AgentInstance(AgentHdr.AgentID)
+
+										// an agent can't be linked below itself or below one of its own descendants
+										var Cycle = false
+										for Ancestor := a; Ancestor != nil; Ancestor = Ancestor.Pivots.Parent {
+											if Ancestor == DemonInfo {
+												Cycle = true
+												break
+											}
+										}
+										if Cycle {
+											Message["Type"] = "Error"
+											Message["Message"] = "[SMB] Failed to connect: agent " + DemonInfo.NameID + " is already upstream of " + a.NameID
+											break
+										}
+
 										Message["MiscType"] = "reconnect"
 										Message["MiscData"] = fmt.Sprintf("%v;%x", a.NameID, AgentHdr.AgentID)
 
